@@ -35,10 +35,9 @@ def load_prop(pid: str):
 
 def known_findings(pid: str):
     f = VERIF / "known_findings.json"
-    if not f.exists():
-        return {}
+    entries = json.loads(f.read_text()) if f.exists() else []
     out = {}
-    for e in json.loads(f.read_text()):
+    for e in entries:
         if isinstance(e, dict) and e.get("property") == pid and "id" in e:
             out[e["id"]] = e
     return out
